@@ -79,6 +79,9 @@ def templates(tier, seed):
         for nprobe in (1, 2):
             for inner in (False, True):
                 tds.append(dict(fam="varfwd", form=form, nprobe=nprobe, inner=inner, n=len(tds)))
+    for form in ("snapshot", "snapshot-inner-shadow", "direct", "reuse-local", "loop-count", "snapshot-after-fwd"):
+        for op in ("* 2", "+ 1"):
+            tds.append(dict(fam="exprlocal", form=form, op=op, n=len(tds)))
     rnd = random.Random(1000 + (seed if tier == "quick" else 0))
     seen = set()
     while len(tds) < n + len(fixed):
@@ -459,9 +462,53 @@ def build_varfwd(td, wrong):
     return Template(f"varfwd/{form}/{td['nprobe']}/{'g' if td['inner'] else 'top'}", doc, vars_, check, family="var-with-forward-reference", role="C15/var-with-forward-reference", cap=4)
 
 
+def build_exprlocal(td, wrong):
+    """an attribute local whose value is an expression: what a descendant reads (and what a <var> copies from it) is the value
+    of that expression, also when the reference itself is written without braces"""
+    form, op = td["form"], td["op"]
+    vars_ = [(11, *VDOM), (18, *VDOM)]
+    f = (lambda t: mul(t, "2.0")) if op == "* 2" else (lambda t: plus(t, "1.0"))
+    P = lambda nm: f'<rect wh="1" data-p="${nm}"/>'
+    if form == "snapshot":
+        body, exp = f'<var n="[[0]]"/><g w="{{{{$n {op}}}}}"><var x="$w"/>{P("x")}<var n="[[1]]"/>{P("x")}</g>', [f("v0"), f("v0")]
+    elif form == "snapshot-inner-shadow":
+        body, exp = f'<var n="[[0]]"/><g w="{{{{$n {op}}}}}"><var x="$w"/><g n="[[1]]">{P("x")}</g>{P("x")}</g>', [f("v0"), f("v0")]
+    elif form == "direct":
+        body, exp = f'<var n="[[0]]"/><g w="{{{{$n {op}}}}}">{P("w")}<g>{P("w")}</g></g>', [f("v0"), f("v0")]
+    elif form == "reuse-local":
+        body, exp = f'<specs><g id="tx"><var x="$w"/>{P("x")}<var n="[[1]]"/>{P("x")}</g></specs><var n="[[0]]"/><reuse href="#tx" w="{{{{$n {op}}}}}"/>', [f("v0"), f("v0")]
+    elif form == "nested-local":
+        body, exp = f'<var n="[[0]]"/><g w="{{{{$n {op}}}}}"><g u="$w"><var x="$u"/>{P("x")}<var n="[[1]]"/>{P("x")}</g></g>', [f("v0"), f("v0")]
+    elif form == "snapshot-after-fwd":
+        body, exp = f'<var n="[[0]]"/><g w="{{{{$n {op}}}}}"><var x="$w"/><rect xy="#later|h 1" wh="1" data-p="$x"/></g>', [f("v0")]
+    else:
+        body, exp = f'<var n="1"/><g reps="{{{{$n {op}}}}}"><loop count="$reps">{P("reps")}</loop></g><rect xy="[[0]] [[1]]" wh="1"/>', ["2.0", "2.0"]
+    doc = f'<svg>{body}<rect id="later" xy="0" wh="2"/></svg>'
+
+    def check(r):
+        if r.status != "ok":
+            return [Obl("transform-ok", FAIL, ground=True, note=r.docs[0]["msg"][:200])]
+        o = Out(r.output)
+        probes = [e for e in o.all if e.get("data-p") is not None and e.get("id") is None]
+        if len(probes) != len(exp):
+            return [Obl("probe-count", FAIL, ground=True, note=f"{len(probes)} outputs for {len(exp)} probes")]
+        obls = []
+        for i, (e, want) in enumerate(zip(probes, exp)):
+            try:
+                t = o.tok(e.get("data-p"))
+            except Exception:
+                obls.append(Obl(f"probe{i}-resolved", FAIL, ground=True, note=str(e.get("data-p"))))
+                continue
+            obls.append(Obl(f"probe{i}-is-value-of-the-local", ne(t, plus(want, "1.0") if wrong else want)))
+        return obls
+    return Template(f"exprlocal/{form}/{op}", doc, vars_, check, family="expression-valued-locals", role="C15/expression-valued-local", cap=4)
+
+
 def build(td, wrong=False):
     if td["fam"] == "varfwd":
         return build_varfwd(td, wrong)
+    if td["fam"] == "exprlocal":
+        return build_exprlocal(td, wrong)
     import copy
     ren = Ren()
     stack = [{}]
